@@ -197,12 +197,33 @@ def shard(ctx, k, payload):
                 ctx.count('triples')
 
 
+def shard_sequential(ctx, k, payload):
+    """every triple once more in ONE process, forwards then backwards: an amount must not depend on which
+    other amounts were looked up before it (tables shared or memoised across forms, years or statuses)"""
+    seed = payload
+    order = list(range(len(TABLE['amounts'])))
+    for direction, idxs in (('forward', order), ('backward', order[::-1])):
+        for idx in idxs:
+            entry = TABLE['amounts'][idx]
+            years = sorted(entry['values']) if direction == 'forward' else sorted(entry['values'], reverse=True)
+            for ys in years:
+                sts = ST if direction == 'forward' else ST[::-1]
+                for status in sts:
+                    amount = entry['values'][ys][status]
+
+                    def body(data, entry=entry, ys=ys, status=status, amount=amount):
+                        check_triple(ctx, entry, int(ys), status, amount, data.draw)
+                    hyp.run_data(body, 1, seed + idx)
+                    ctx.count('sequential_pass:' + direction)
+
+
 def run(ctx):
     quick = ctx.tier == 'quick'
     n = len(TABLE['amounts'])
     idxs = list(range(n))
     chunks = [idxs[j::16] for j in range(16)]
     hyp.pmap(ctx, shard, [(c, 3 if quick else 20, ctx.seed * 101) for c in chunks if c])
+    hyp.pmap(ctx, shard_sequential, [ctx.seed * 103])
     ctx.exhaustive = True
     ctx.extra['amount_ids'] = n
     e = TABLE['amounts'][0]
